@@ -185,11 +185,24 @@ func c01Scenarios(tier string) []*core.Scenario {
 
 	crs := []string{"CR0", "CR2", "CR3", "CR4"}
 	scs = append(scs, &core.Scenario{Name: "sreg_creg", Bound: -1,
-		Rule:   "MOV Sreg,r16 / MOV r16,Sreg for all 6x8, MOV CRn,r32 / MOV r32,CRn for all 4x8, x BITS",
+		Rule:   "MOV Sreg,r16 / MOV r16,Sreg for all 6x8, MOV CRn,r32 / MOV r32,CRn for all 4x8, MOV Sreg,m16 / MOV m16,Sreg for 6 x 6 memory shapes (with and without WORD), x BITS",
 		Bounds: map[string]any{"sregs": x86ref.SReg, "cregs": crs},
 		Build: func(c *core.Chooser) *core.Case {
 			mode := pickMode(c)
-			if c.Pick("class", 2) == 0 {
+			cls := c.Pick("class", 3)
+			if cls == 2 { // MOV m16,Sreg / MOV Sreg,m16 (8C /r, 8E /r with a memory operand)
+				s := x86ref.SReg[c.Pick("sreg", 6)]
+				sh := c01MemShapes(mode)
+				m := sh[c.Pick("shape", len(sh))]
+				kw := []string{"", "WORD "}[c.Pick("sizekw", 2)]
+				if c.Bool("from") {
+					return insnCase(mode, fmt.Sprintf("MOV %s%s,%s", kw, m.text, s), x86ref.Want{Op: "MOV", Allow66: true, Ops: []x86ref.WantOp{wmem(m, 16), wreg(s)}},
+						feat("form", "m,sreg", "mn", "MOV", "sreg", s, "shape", m.text, "sizekw", kw), nil)
+				}
+				return insnCase(mode, fmt.Sprintf("MOV %s,%s%s", s, kw, m.text), x86ref.Want{Op: "MOV", Allow66: true, Ops: []x86ref.WantOp{wreg(s), wmem(m, 16)}},
+					feat("form", "sreg,m", "mn", "MOV", "sreg", s, "shape", m.text, "sizekw", kw), nil)
+			}
+			if cls == 0 {
 				s := x86ref.SReg[c.Pick("sreg", 6)]
 				r := x86ref.Reg16[c.Pick("reg", 8)]
 				if c.Bool("from") {
